@@ -121,6 +121,22 @@ def run(ctx):
             rs = ctx.ret_values(f)
             ok = len(rs) == 1 and rs[0].startswith("core::result::Result::Ok{") and bool(re.search(conv, rs[0])) or len(rs) == 1 and rs[0] == "core::result::Result::Ok{a1}"
             ctx.ob("C11.G.string-as-it-stands", f.key, "return", ok, "returns %s" % rs)
+    # ---------------------------------------------------------------- "never a panic"
+    # closed census over the scalar hooks and every darling function they reach (error constructors
+    # included): a panic-capable construct needs a row of the shared table with a discharged guard
+    roots = []
+    for ty in NUMS + FLOATS + ["bool", "char", "alloc::string::String", "std::path::PathBuf"]:
+        for m in ("from_value", "from_string", "from_word", "from_bool", "from_char"):
+            f = ctx.fn("<%s as darling_core::from_meta::FromMeta>::%s" % (ty, m), required=False)
+            if f:
+                roots.append(f)
+    reach = {}
+    for f in roots:
+        for b in [f] + ctx.closures_of(f) + ctx.local_callees(f, depth=4):
+            for bb in [b] + ctx.closures_of(b):
+                reach[bb.key] = bb
+    sites = common.panic_census(ctx, "C11.C", list(reach.values()), "runtime")
+    ctx.ob("C11.C.reach", "scalar hooks", "functions reached", len(reach) >= len(roots) + 5, "%d functions reached from %d hooks; %d panic-capable sites, each matched to a table row" % (len(reach), len(roots), len(sites)))
     return ctx.finish(
         explanation="Callee/type-argument identity and forbidden-construct scan over %d numeric impls (from_value, from_string and their closures) plus the bool/char/String/PathBuf hooks." % n,
         assumptions=["core::str::parse::<N>, syn::LitInt::base10_parse::<N> and syn::LitFloat::base10_parse::<N> are exact (trusted base)",
